@@ -42,7 +42,7 @@ ASSUMPTIONS = [
     "the tree is a tree: a value is inserted at one place at a time (fresh object, or a subtree detached earlier by delete/replace)",
     "the key's last part equals the value's name (otherwise obj.path cannot lead back to the object); the collection holds modules only, classes hold no modules, functions/attributes hold nothing",
     "mutation paths go through modules/classes only: setting or deleting *through* an alias or a function is not generated",
-    "alias registry clause: for an alias whose target is an alias, `target.aliases` is the registry of the chain's final target; it is evaluated when every link is already resolved (links followed by identity, nothing is resolved by the check, rings by path are skipped exactly as Alias.final_target rejects them)",
+    "alias registry clause: for an alias whose target is an alias, `target.aliases` is the registry of the chain's final target; it is evaluated when every link is already resolved (links followed by identity, nothing is resolved by the check, rings by path are skipped exactly as Alias.final_target rejects them) and while no later step mutated the tree or re-targeted an alias since the outer alias was attached / re-targeted (Griffe registers an outer alias once, at that moment; see findings/C16.md 5)",
     "the reference model mirrors one Griffe-specific behaviour: set_member replacing a module by a module with a different file path merges regular+stubs (.pyi); the discarded stubs module is never re-inserted; an alias value that would trigger that merge is not generated",
     "outcomes of alias.resolve_target() are not predicted (C06's subject); AliasResolutionError/CyclicAliasError are its allowed exceptions",
 ]
